@@ -24,7 +24,9 @@ One executable state machine `step : Cfg → FS → Op → FS × Out`.
 * The model mirrors the tree *after* the repairs made for this property (see KNOWN_FINDINGS):
   writes past the end zero-fill and negative offsets are rejected (F17a), link traversals are
   counted in one counter per lookup (F17c), `MkdirAll`/`Mkdir` never create `.`/`..` (F15b),
-  `Symlink`/`Link`/`Mknod` under a non-directory fail instead of writing a nil map (F17e).
+  `Symlink`/`Link`/`Mknod` under a non-directory fail instead of writing a nil map (F17e),
+  no method enters a node under the base names `.`, `..`, `/` (F17g), `Link` refuses directories
+  (F17h), and `SubFS.Symlink`/`SubFS.Link` join the view's root like every other method (F17i).
 
 Names and contents are `Text` (one `Char` per byte).
 -/
@@ -166,7 +168,7 @@ def newDir (mode : Nat) : Inode := { dir := true, mode := mode }
 
 inductive Err
   | notExist | exist | parentNotDir | pathNotDir | notDir | isDir | loop | tooManyLinks
-  | notLink | notDevice | closed | invalid | whence | notWrite
+  | notLink | notDevice | closed | invalid | whence | notWrite | perm
   | conflictNoTe | conflictSum | fileConflict | nilChecksum | unsupported
   deriving DecidableEq, Repr
 
@@ -360,6 +362,11 @@ def statOf (c : Cfg) (n : Inode) (name : Text) (hlKey : Text) : StatInfo :=
 
 def hasDotDot (ps : List Name) : Bool := ps.any (· = dotdot)
 
+/-- `isDotName(base)`: what `filepath.Base` yields for a path that names an existing directory (the
+directory itself, its parent, the root) rather than a new entry.  No method enters a node into a
+directory under such a name. -/
+def dotName (b : Name) : Bool := b = dot || b = dotdot || b = slash
+
 /-- `MkdirAll`'s component loop -/
 def mkdirAllLoop (c : Cfg) (mode : Nat) : List Name → FS → Pos → List Name → FS × Option Err
   | [], fs, _, _ => (fs, none)
@@ -415,6 +422,7 @@ def openFileD (c : Cfg) (flag perm : Nat) : Nat → FS → List Ino → Text →
         else (fs, .error .notExist)
       else
       if (match existing with | some a => (fs.node a).dir | none => false) then (fs, .error .isDir) else
+      if existing.isNone ∧ dotName b then (fs, .error .isDir) else
       let (fs1, a) := match existing with
         | some a => (fs, a)
         | none => fs.create pp.ino b { mode := perm }
@@ -503,6 +511,8 @@ def linkOp (c : Cfg) (fs : FS) (oldname newname : Text) (hdr : Bool) : FS × Out
     match getNode c fs oldname with
     | .error _ => (fs, .err .notExist)
     | .ok t =>
+      if (fs.node t).dir then (fs, .err .perm) else
+      if dotName b then (fs, .err .exist) else
       if (fs.lookup pi b).isSome then (fs, .err .exist) else
       let fs1 := fs.link pi b t
       let fs2 := fs1.modify t fun n =>
@@ -520,7 +530,7 @@ def writeHeaderFile (c : Cfg) (fs : FS) (h : Hdr) (sum : Text) : FS × Except Er
                            pkgName := h.pkgName, pkgOrigin := h.pkgOrigin, pkgReplaces := h.pkgReplaces }
     let nd : Inode := { mode := hdrMode h, mtime := h.mtime, target := h.linkname, te := some te }
     match fs.lookup pi b with
-    | none => ((fs.create pi b nd).1, .ok true)
+    | none => if dotName b then (fs, .error .invalid) else ((fs.create pi b nd).1, .ok true)
     | some e =>
       let en := fs.node e
       match en.te with
@@ -719,6 +729,7 @@ def step (c : Cfg) (fs : FS) : Op → FS × Out
     | .error e => (fs, .err e)
     | .ok (pi, b) =>
       if !(fs.node pi).dir then (fs, .err .parentNotDir) else
+      if dotName b then (fs, .err .exist) else
       if (fs.lookup pi b).isSome then (fs, .err .exist) else
       ((fs.create pi b { mode := modeSymlink + 0o777, target := target, mtime := (fs.node pi).mtime }).1,
        .ok .unit)
@@ -732,6 +743,7 @@ def step (c : Cfg) (fs : FS) : Op → FS × Out
     | .error e => (fs, .err e)
     | .ok (pi, b) =>
       if !(fs.node pi).dir then (fs, .err .parentNotDir) else
+      if dotName b then (fs, .err .exist) else
       if (fs.lookup pi b).isSome then (fs, .err .exist) else
       ((fs.create pi b { mode := mode ||| modeCharDevice ||| modeDevice, major := unixMajor dev,
                          minor := unixMinor dev, mtime := (fs.node pi).mtime }).1, .ok .unit)
@@ -800,8 +812,51 @@ def walkFrom (fs : FS) : Nat → List Name → Ino → List (List Name × Ino)
 
 def walk (fs : FS) : List (List Name × Ino) := walkFrom fs fs.nodes.length [] 0
 
-/-- SubFS: every method joins the root to its path (`Symlink`/`Link` do not: they pass both
-names through unchanged) -/
+/-- one callback of `io/fs.WalkDir`: the path, whether the entry is a directory, and the error the
+callback was handed (a failed `Stat` of the root, a failed `ReadDir`) -/
+structure Visit where
+  path : Text
+  isDir : Bool
+  err : Option Err := none
+  deriving DecidableEq, Repr
+
+mutual
+/-- `io/fs.walkDir(fsys, name, d, fn)` through the public API (path based, as the layer writer and
+the recursive permissions mutation run it), with a callback that never skips.  `none`: the nesting
+exceeded `fuel` — with the fuel of `walkDirOp` that happens only below a directory that contains
+itself, where the Go function never returns.  `tr` is the path rewriting of the view the walk runs
+on (`id`, or `join2 root` for a `SubFS`). -/
+def walkDirP (c : Cfg) (fs : FS) (tr : Text → Text) : Nat → Text → Bool → Option (List Visit)
+  | 0, _, _ => none
+  | fuel + 1, name, isDir =>
+    if !isDir then some [{ path := name, isDir := false }] else
+    match (step c fs (.readDir (tr name))).2 with
+    | .ok (.entries es) =>
+      (walkKidsP c fs tr fuel name es).map fun vs => { path := name, isDir := true } :: vs
+    | .err e => some [{ path := name, isDir := true }, { path := name, isDir := true, err := some e }]
+    | _ => some [{ path := name, isDir := true }]
+def walkKidsP (c : Cfg) (fs : FS) (tr : Text → Text) : Nat → Text → List StatInfo → Option (List Visit)
+  | 0, _, _ => none
+  | _, _, [] => some []
+  | fuel + 1, name, e :: rest =>
+    match walkDirP c fs tr fuel (join2 name e.name) e.isDir with
+    | none => none
+    | some v1 =>
+      match walkKidsP c fs tr fuel name rest with
+      | none => none
+      | some v2 => some (v1 ++ v2)
+end
+
+/-- `fs.WalkDir(fsys, root, fn)` -/
+def walkDirOp (c : Cfg) (fs : FS) (tr : Text → Text) (root : Text) : Option (List Visit) :=
+  match (step c fs (.stat (tr root))).2 with
+  | .ok (.stat s) =>
+    walkDirP c fs tr (2 * fs.nodes.length + 4 + (fs.nodes.map (·.children.length)).sum) root s.isDir
+  | .err e => some [{ path := root, isDir := false, err := some e }]
+  | _ => some []
+
+/-- SubFS: every method joins the root to its path(s); a symlink's target is data, not a path of
+the view, and stays as given -/
 def subOp (root : Text) : Op → Op
   | .mkdir p m => .mkdir (join2 root p) m
   | .mkdirAll p m => .mkdirAll (join2 root p) m
@@ -823,6 +878,8 @@ def subOp (root : Text) : Op → Op
   | .getXattr p a => .getXattr (join2 root p) a
   | .removeXattr p a => .removeXattr (join2 root p) a
   | .listXattrs p => .listXattrs (join2 root p)
+  | .symlink t p => .symlink t (join2 root p)
+  | .link o p => .link (join2 root o) (join2 root p)
   | op => op
 
 end Apko.FS
